@@ -93,11 +93,24 @@ fn run_plan<T: FEl>(tr: &mut Trace, rng: &mut Rng, p: &Plan<T>, dense: usize, ex
 fn mesh_axis<T: FEl>(rng: &mut Rng, n: usize) -> Vec<T> {
     let ratio = if T::NAME == "f32" { 8.0 } else { 64.0 };
     for _ in 0..50 {
-        let v = match rng.below(4) {
+        let mut v = match rng.below(6) {
             0 => (0..n).map(|i| i as f64 + 2.0).collect::<Vec<f64>>(),
             1 => gen::axis_mesh(rng, n, ratio, if T::NAME == "f32" { 3 } else { 6 }),
+            2 => {
+                let mf = rng.bool();
+                gen::axis_coincidence(rng, n, mf)
+            }
             _ => gen::axis_mesh(rng, n, ratio, 0),
         };
+        // a power-of-two change of the axis unit (exact): tiny and huge units now and then
+        let k: i32 = *rng.pick(&[0, 0, 0, 0, -24, 20, -10]);
+        let k = if T::NAME == "f32" { k / 3 } else { k };
+        if k != 0 {
+            let f = (2.0f64).powi(k);
+            for a in v.iter_mut() {
+                *a *= f;
+            }
+        }
         if let Some(a) = gen::axis_as::<T>(&v) {
             return a;
         }
@@ -265,6 +278,11 @@ fn poly_one<T: FEl>(tr: &mut Trace, rng: &mut Rng, n: usize, lanes: usize, i: us
         xf.push(k as f64 / (1u64 << gb) as f64);
         k += rng.range(1, if f32m { 3 } else { 24 });
     }
+    // the axis unit: the polynomial is sampled in the variable u = x / unit, so data and derivative values stay exact
+    let unit_k: i32 = if f32m { *rng.pick(&[0, 0, -6, 5]) } else { *rng.pick(&[0, 0, 0, -24, 16, -12]) };
+    let unit = (2.0f64).powi(unit_k);
+    let uf = xf.clone();
+    let xf: Vec<f64> = uf.iter().map(|u| u * unit).collect();
     let x: Vec<T> = xf.iter().map(|&v| T::of_f64(v)).collect();
     // choose the end conditions first, then an admissible degree per lane
     let lk = *rng.pick(&["NotAKnot", "FirstDeriv", "SecondDeriv", "Natural", "Clamped"]);
@@ -286,18 +304,20 @@ fn poly_one<T: FEl>(tr: &mut Trace, rng: &mut Rng, n: usize, lanes: usize, i: us
     for j in 0..lanes {
         let deg = if j == 0 { maxdeg } else { rng.below(maxdeg + 1) };
         let p = gen::DyPoly::random(rng, deg, amax, cb);
-        for (r, &xv) in xf.iter().enumerate() {
-            vals[r * lanes + j] = T::of_f64(p.eval(xv));
+        for (r, &uv) in uf.iter().enumerate() {
+            vals[r * lanes + j] = T::of_f64(p.eval(uv));
         }
+        // derivatives with respect to x = u * unit
         let mk = |kind: &'static str, at: f64| -> Side<T> {
             match kind {
-                "FirstDeriv" => Side { kind, val: Some(T::of_f64(p.d1(at))) },
-                "SecondDeriv" => Side { kind, val: Some(T::of_f64(p.d2(at))) },
+                "FirstDeriv" => Side { kind, val: Some(T::of_f64(p.d1(at) / unit)) },
+                "SecondDeriv" => Side { kind, val: Some(T::of_f64(p.d2(at) / (unit * unit))) },
                 _ => Side { kind, val: None },
             }
         };
-        rows.push(RowB::Mixed(mk(lk, xf[0]), mk(rk, xf[n - 1])));
-        let cs: Vec<String> = (0..4).map(|d| T::of_f64(p.coef(d)).pay()).collect();
+        rows.push(RowB::Mixed(mk(lk, uf[0]), mk(rk, uf[n - 1])));
+        // coefficients of the polynomial in x
+        let cs: Vec<String> = (0..4).map(|d| T::of_f64(p.coef(d) / unit.powi(d as i32)).pay()).collect();
         polys.push(jarr_s(&cs));
     }
     let data = ArrayD::from_shape_vec(IxDyn(&[n, lanes]), vals).unwrap();
